@@ -55,7 +55,7 @@ Theorem float_table_indices_in_bounds :
   (0 <= - G_CL_LO < POW10_FLOAT_LEN /\ G_CL_SPLIT < POW10_FLOAT_LEN /\ G_CL_SPLIT_MUL < POW10_FLOAT_LEN /\
    G_CL_HI - G_CL_SPLIT_SUB < POW10_FLOAT_LEN /\ 0 < G_CL_SPLIT + 1 - G_CL_SPLIT_SUB /\
    0 <= (G_NF_LO + 1) + G_NF_IDX /\ (G_NF_HI - 1) + G_NF_IDX < POW5_LEN)%Z.
-Proof. pose proof clinger_guard as C. pose proof normal_fast_guard as N. intuition. Qed.
+Proof. exact float_table_indices. Qed.
 
 (* memory safety of the string results: the decoders hand out &str built without re-validation; the
    decoded bytes of a literal taken from valid UTF-8 input are valid UTF-8 *)
